@@ -1344,7 +1344,7 @@ func (ex *Exec) typeAssert(st *State, fr *Frame, x *ssa.TypeAssert) Value {
 		} else {
 			okT = And(Not(nilT(v.Nil)), App("typeis:"+typeStr(x.AssertedType), BoolSort, v.ID))
 			// payload: a fresh symbolic value of the asserted type, memoised per (id, type) through naming
-			res = st.symValue(x.AssertedType, fmt.Sprintf("%s.(%s)", idxName(v.ID), typeStr(x.AssertedType)), 2, true)
+			res = st.symValue(x.AssertedType, fmt.Sprintf("%s.(%s)", idxName(v.ID), typeStr(x.AssertedType)), 3, true)
 		}
 	}
 	if x.CommaOk {
@@ -1615,7 +1615,7 @@ func (ex *Exec) havocLoop(st *State, fr *Frame, li *loopInfo, phis []*ssa.Phi, w
 			name = p.Name()
 		}
 		name = fmt.Sprintf("%s@loop%d", name, li.ordinal)
-		nv := st.symValue(p.Type(), freshName(name), 2, false)
+		nv := st.symValue(p.Type(), freshName(name), 3, false)
 		// inherit freshness / input flags of the entry value's backing objects
 		if sl, ok := nv.(VSlice); ok {
 			ev, _ := entryVals[p].(VSlice)
